@@ -131,6 +131,14 @@ def main(seed, ncases, driver, out):
                 if P["N"] == 1 and not isinstance(P["fd"], dict): sel = [0]
                 if any(len(set(E0[a] for a in range(P["d"]) if P["blocks"][a] == b)) >= 2 for b in sel): break
                 P = problem(rnd, hermitian, needk)
+        if tr == "degenerate-rotation":
+            # prefer problems in which a fully diagonalised block holds a degenerate level: only there does a rotation inside the level meet the masks
+            for _ in range(40):
+                E0 = np.diag(P["terms"][(0,) * P["k"]]).real; sel = list(P["fd"])
+                if P["N"] == 1 and not len(P["fd"]): sel = [0]
+                lv = lambda b: [E0[a] for a in range(P["d"]) if P["blocks"][a] == b]
+                if any(len(lv(b)) > len(set(lv(b))) for b in sel): break
+                P = problem(rnd, hermitian, needk)
         k, d, N = P["k"], P["d"], P["N"]
         maxn = (3,) if k == 1 else (2, 2)
         if exact: maxn = (2,) if k == 1 else (1, 1)
@@ -180,7 +188,7 @@ def main(seed, ncases, driver, out):
                         g = [a for a in range(d) if P["blocks"][a] == b and E[a] == e]
                         if len(g) >= 2:
                             z = rng.normal(size=(len(g), len(g))) + (1j * rng.normal(size=(len(g), len(g))) if cplx else 0); q, _ = np.linalg.qr(z); R[np.ix_(g, g)] = q
-                if rnd.random() < 0.5 and not exact:
+                if rnd.random() < 0.7 and not exact:
                     # the same rotation presented through eigenvector matrices of a dense, rotated H_0: the level is degenerate only up to rounding
                     z = rng.normal(size=(d, d)) + (1j * rng.normal(size=(d, d)) if cplx else 0); Qf, _ = np.linalg.qr(z); Wf = Qf @ R
                     Q["terms"] = {n: Qf @ m @ Qf.conj().T for n, m in P["terms"].items()}
